@@ -9,14 +9,17 @@ T == Traces[tid].ev
 Max(a, b) == IF a > b THEN a ELSE b
 TraceInit == /\ tid \in 1 .. Len(Traces) /\ l = 1 /\ Init /\ TLCSet(tid, 1)
 Event(ev) ==
-    /\ Create(ev.ups, ev.la, ev.aa, ev.ens)
-    /\ last'.raised = ev.raised
-    /\ loop' = ev.loop /\ mode' = ev.mode
-    /\ last'.bgNew = ev.bgNew
+    IF "run" \in DOMAIN ev
+    THEN \* start() called from context ev.from; ev.on: the loop on which the source's callbacks were seen (0: never)
+         /\ Run(ev.run, ev.from) /\ ranOn'[ev.run] = ev.on
+    ELSE /\ Create(ev.ups, ev.la, ev.aa, ev.ens)
+         /\ last'.raised = ev.raised
+         /\ loop' = ev.loop /\ mode' = ev.mode
+         /\ last'.bgNew = ev.bgNew
 TraceNext == /\ l <= Len(T) /\ Event(T[l])
              /\ l' = l + 1 /\ TLCSet(tid, Max(TLCGet(tid), l + 1)) /\ UNCHANGED tid
 TraceSpec == TraceInit /\ [][TraceNext]_tvars
 TraceInv == /\ OneLoopPerPipeline /\ OneModePerPipeline /\ Inherits /\ InheritsLoopNeeded /\ AsyncStaysOnCaller
-            /\ AsyncOnCallerWhenAlone /\ AsyncNeverStartsBG /\ FallbackBG /\ ExplicitLoop /\ ConflictRaises
+            /\ AsyncOnCallerWhenAlone /\ AsyncNeverStartsBG /\ FallbackBG /\ ExplicitLoop /\ ConflictRaises /\ RunsOnOwnLoop
 Report == \A i \in 1 .. Len(Traces) : PrintT(<<"REACHED", Traces[i].id, TLCGet(i), Len(Traces[i].ev) + 1>>)
 =============================================================================
